@@ -36,9 +36,9 @@ Inductive validator : Type :=
 Record shapes : Type := {
   s_vexc : exn;                           (* class raised by Validator.raise_exception *)
   s_h_validate_param : htable;
-  s_min_tests : list (cmpop * bool);      (* (op, flag polarity): `value <op> self._value and [not] include_boundary` rejects *)
+  s_min_tests : list btest;               (* the if / elif chain: each branch rejects *)
   s_min_dom : domkind;
-  s_max_tests : list (cmpop * bool);
+  s_max_tests : list btest;
   s_max_dom : domkind;
   s_minlen_dom : domkind;
   s_minlen_op : cmpop;                    (* len(value) <op> self._length rejects *)
@@ -49,6 +49,7 @@ Record shapes : Type := {
   s_foreach : foreach_shape;
   s_h_is_uuid : htable;
   s_h_is_enum : htable;
+  s_enum_float_guard : bool;              (* IntEnum: a float that is no whole number raises ValueError before int() *)
   s_h_iso : htable;
   s_unix_dom : domkind;
   s_h_unix_float : htable;
@@ -60,7 +61,8 @@ Record shapes : Type := {
   s_cv_true : list str;
   s_cv_false : list str;
   s_cv_bool_else : exn;
-  s_h_convert : htable
+  s_h_convert : htable;
+  s_h_convert_norm : htable               (* handlers around str(value).strip().lower(); [] when it is not inside a try *)
 }.
 
 (* the shapes of the current source (Gen/Validators.v is regenerated on every run) *)
@@ -80,6 +82,7 @@ Definition gen_shapes : shapes := {|
   s_foreach := Gen.Validators.foreach_cfg;
   s_h_is_uuid := Gen.Validators.h_is_uuid;
   s_h_is_enum := Gen.Validators.h_is_enum;
+  s_enum_float_guard := Gen.Validators.enum_float_guard;
   s_h_iso := Gen.Validators.h_iso;
   s_unix_dom := Gen.Validators.unix_dom;
   s_h_unix_float := Gen.Validators.h_unix_float;
@@ -91,23 +94,27 @@ Definition gen_shapes : shapes := {|
   s_cv_true := Gen.Validators.cv_true;
   s_cv_false := Gen.Validators.cv_false;
   s_cv_bool_else := Gen.Validators.cv_bool_else;
-  s_h_convert := Gen.Validators.h_convert
+  s_h_convert := Gen.Validators.h_convert;
+  s_h_convert_norm := Gen.Validators.h_convert_norm
 |}.
 
 (* ---------- the families ------------------------------------------------------------------------- *)
-(* if value <op1> bound and <flag1>: reject   elif value <op2> bound and <flag2>: reject ...; return value
-   (the comparison is evaluated first and may raise TypeError) *)
-Fixpoint bound_tests (VE : exn) (tests : list (cmpop * bool)) (bound : value) (incl : bool) (v : value)
+(* if <test1>: reject   elif <test2>: reject ...; return value
+   `and` short-circuits: with the flag first the comparison (which may raise TypeError) is only evaluated
+   when the flag holds; with the comparison first it is always evaluated *)
+Fixpoint bound_tests (VE : exn) (tests : list btest) (bound : value) (incl : bool) (v : value)
     : outcome value :=
   match tests with
   | [] => Ok v
   | t :: ts' =>
-      match py_cmp (fst t) v bound with
-      | Raise e => Raise e
-      | Ok b => if b && Bool.eqb incl (snd t) then Raise VE else bound_tests VE ts' bound incl v
-      end
+      if bt_flag_first t && negb (Bool.eqb incl (bt_pol t)) then bound_tests VE ts' bound incl v
+      else
+        match py_cmp (bt_op t) v bound with
+        | Raise e => Raise e
+        | Ok b => if xorb b (bt_neg t) && Bool.eqb incl (bt_pol t) then Raise VE else bound_tests VE ts' bound incl v
+        end
   end.
-Definition bound_validate (VE : exn) (dom : domkind) (tests : list (cmpop * bool)) (bound : value) (incl : bool)
+Definition bound_validate (VE : exn) (dom : domkind) (tests : list btest) (bound : value) (incl : bool)
     (v : value) : outcome value :=
   if negb (in_dom dom v) then Raise VE else bound_tests VE tests bound incl v.
 
@@ -219,7 +226,7 @@ Section Sem.
   Local Notation VE := (s_vexc S).
 
   Definition uuid_validate (convert : bool) (v : value) : outcome value :=
-    match o_uuid O (py_str O v) with
+    match bind (py_str O v) (o_uuid O) with
     | Ok u => Ok (if convert then u else v)
     | Raise e => handle VE (s_h_is_uuid S) e
     end.
@@ -237,11 +244,19 @@ Section Sem.
     | _ => py_int O v
     end.
 
+  (* int(value) in the IntEnum branch, behind the guard against floats that are no whole numbers *)
+  Definition enum_int_value (members : list value) (v : value) : outcome Z :=
+    match v with
+    | VFloat f => if s_enum_float_guard S && negb (float_is_integral f) then Raise ValueErrorC
+                  else enum_int_arg members v
+    | _ => enum_int_arg members v
+    end.
+
   Definition enum_validate (members : list value) (int_enum convert upper : bool) (v : value) : outcome value :=
     let v1 := match v with VStr s => if upper then VStr (py_upper O s) else v | _ => v end in
     let looked :=
       if int_enum then
-        match enum_int_arg members v1 with
+        match enum_int_value members v1 with
         | Ok z => enum_lookup members (VInt z)
         | Raise e => Raise e
         end
@@ -252,7 +267,10 @@ Section Sem.
     end.
 
   Definition match_validate (pat : re) (v : value) : outcome value :=
-    if re_test (s_matchpattern_mode S) pat (py_str O v) then Ok v else Raise VE.
+    match py_str O v with
+    | Raise e => Raise e
+    | Ok s => if re_test (s_matchpattern_mode S) pat s then Ok v else Raise VE
+    end.
 
   Definition iso_validate (v : value) : outcome value :=
     match o_fromiso O v with
@@ -317,7 +335,8 @@ Section Sem.
     | NLower => py_lower O s
     | NUpper => py_upper O s
     end.
-  Definition normalise (ops : list normop) (v : value) : str := fold_left norm_step ops (py_str O v).
+  Definition normalise (ops : list normop) (v : value) : outcome str :=
+    match py_str O v with Ok s => Ok (fold_left norm_step ops s) | Raise e => Raise e end.
 
   Fixpoint split_on (sep : Z) (s : str) : list str :=
     match s with
@@ -352,7 +371,9 @@ Section Sem.
 
   Definition convert_value (v : value) (t : ttype) : outcome value :=
     if isinstance_t v t then Ok v else
-    let s := normalise (s_cv_norm S) v in
+    match normalise (s_cv_norm S) v with
+    | Raise e => handle VE (s_h_convert_norm S) e
+    | Ok s =>
     match t with
     | TBool =>
         if str_in s (s_cv_true S) then Ok (VBool true)
@@ -371,5 +392,6 @@ Section Sem.
         | Ok f => Ok (VFloat f)
         | Raise e => handle VE (s_h_convert S) e
         end
+    end
     end.
 End Sem.
